@@ -7,7 +7,7 @@ Local Open Scope N_scope.
 Local Open Scope list_scope.
 
 Definition C := Gen_Filter.consts.
-Lemma gen_ok : filter_consts_ok C = true.
+Lemma gen_ok : chain_consts_ok C = true.
 Proof. vm_compute. reflexivity. Qed.
 
 (** for every behaviour of the registered functions and every chain the configuration line allows:
